@@ -20,6 +20,8 @@ from implutil import dtype_info
 def make_layout(arr, layout):
     """Same values, different memory layout."""
     arr = np.asarray(arr)
+    if arr.ndim == 0:
+        return arr          # np.ascontiguousarray would make it 1-D
     if layout == 'F' and arr.ndim >= 2:
         return np.asfortranarray(arr)
     if layout == 'strided' and arr.ndim >= 1 and arr.shape[0] > 0:
